@@ -1242,6 +1242,11 @@ pub fn group_files(config: &GroupConfig, log: &dyn Log) -> Result<Vec<FileGroup<
     let ctx = GroupCtx::new(config, log)?;
 
     drop(spinner);
+    #[cfg(fclones_verif)]
+    crate::verif::event(
+        "sem.open_files",
+        &format!("start {}", RLIMIT_OPEN_FILES.verif_count()),
+    );
     let matching_files = scan_files(&ctx);
     #[cfg(fclones_verif)]
     crate::verif::sync_point("scan.done", "");
@@ -1286,6 +1291,11 @@ pub fn group_files(config: &GroupConfig, log: &dyn Log) -> Result<Vec<FileGroup<
     groups
         .par_iter_mut()
         .for_each(|g| g.sort_by_path(&ctx.group_filter.root_paths));
+    #[cfg(fclones_verif)]
+    crate::verif::event(
+        "sem.open_files",
+        &format!("end {}", RLIMIT_OPEN_FILES.verif_count()),
+    );
     Ok(groups)
 }
 
